@@ -1021,8 +1021,13 @@ class CallGraph:
         self.ext_calls[fi.fq] = set()
         self.call_sites[fi.fq] = []
         loc = self.typer.local_types(fi)
+        # decorators (and defaults) are evaluated when the def statement runs, by the enclosing scope
+        def_time = set()
+        if isinstance(fi.node, (ast.FunctionDef, ast.AsyncFunctionDef)) and fi.qualname != "<module>":
+            for d in list(fi.node.decorator_list) + list(fi.node.args.defaults) + [x for x in fi.node.args.kw_defaults if x is not None]:
+                def_time |= {id(x) for x in ast.walk(d)}
         for n in ast.walk(fi.node):
-            if isinstance(n, ast.Call):
+            if isinstance(n, ast.Call) and id(n) not in def_time:
                 typed = self.typer.call_targets(fi, n, loc, typed_only=True) if isinstance(n.func, ast.Attribute) else None
                 for tgt in self.typer.call_targets(fi, n, loc):
                     self._edge(fi, n, tgt)
@@ -1051,7 +1056,8 @@ class CallGraph:
     def _module_level(self, mi):
         pseudo = ast.FunctionDef(
             name="<module>", args=ast.arguments(posonlyargs=[], args=[], kwonlyargs=[], kw_defaults=[], defaults=[]),
-            body=[s for s in mi.tree.body if not isinstance(s, (ast.FunctionDef, ast.ClassDef))],
+            body=[s for s in mi.tree.body if not isinstance(s, (ast.FunctionDef, ast.ClassDef))]
+            + [ast.Expr(value=d) for s in mi.tree.body if isinstance(s, (ast.FunctionDef, ast.ClassDef)) for d in s.decorator_list],
             decorator_list=[], lineno=1, col_offset=0,
         )
         fi = FuncInfo(mi, "<module>", pseudo, None)
